@@ -380,6 +380,9 @@ for the pair (0, 2), both sides false for the bonded neighbours (0, 1) -/
 example : 0 ≤ pPos.minForce ∧ KeysNodup at4 ∧ Criteria at4 ed4 pPos 0 2 ∧ ¬ Criteria at4 ed4 pPos 0 1 ∧
     (network at4 ed4 pPos).length = 2 := by decide
 
+/-- non-vacuity of `run_bonds` / `run_bonds_eq` -/
+example : selection pPos.names at4 ≠ [] ∧ run at4 ed4 pPos = .bonds (network at4 ed4 pPos) := by decide
+
 /-- non-vacuity of `nan_no_network` -/
 example : run [{ key := 0, name := some "BB", res := rk "A" 1, oldResid := none, pos := .nan },
                { key := 1, name := some "SC1", res := rk "A" 1, oldResid := none, pos := .missing }] [] pPos
